@@ -10,9 +10,10 @@ from .. import recon as R
 ID = "C01"
 LEVEL = "proof"
 PROP_FILE = "Properties/C01.v"
-PROOF_FILES = ["Proofs/AllAnyProofs.v", "Proofs/ThlProofs.v", "Proofs/ExhProofs.v", "Proofs/EntryProofs.v", "Proofs/ReconProofs.v", "Proofs/PathFacts.v",
+PROOF_FILES = ["Gen/ThlGen.v", "Proofs/ThlGenProofs.v", "Gen/TableGen.v", "Proofs/TableGenProofs.v", "Gen/EntryGen.v", "Proofs/EntryGenProofs.v", "Gen/EvalGen.v", "Proofs/EvalGenProofs.v", "Proofs/AllAnyProofs.v", "Proofs/ThlProofs.v", "Proofs/ExhProofs.v", "Proofs/EntryProofs.v", "Proofs/ReconProofs.v", "Proofs/PathFacts.v",
                "Model/Thl.v", "Model/Recon.v", "Model/Entry.v", "Base/PathB.v", "Base/Ext.v"]
-TRUSTED = ["model Model/Thl.v of _compute_thl_table/_decode_thl_table/reconcile_thl and generate_all/reconcile_exhaustive (after fixes D2-D4), built on the Entry model (C16) and the evaluator model (C06)"]
+TRUSTED = [
+    "translator translator/pyfun.py + the type tables in translator/table_gen.py and thl_gen.py: the THL solver of compute/reconciliation.py (_compute_thl_try_speciation, _compute_thl_try_duplication_transfer, _compute_thl_table, _decode_thl_table, reconcile_thl, reconcile_lca) and the table classes it runs on are translated into Gen/ThlGen.v and Gen/TableGen.v on every run and proved equal to Model/Thl.v / Model/Entry.v (object nodes = identifiers, species = root paths, LCA structure = the path operations)","model Model/Thl.v of _compute_thl_table/_decode_thl_table/reconcile_thl and generate_all/reconcile_exhaustive (after fixes D2-D4), built on the Entry model (C16) and the evaluator model (C06)"]
 ASSUMES = ["binary trees", "cost vectors in the coherent region spe <= dup + 2*floss for the optimality clauses (F-COHERENCE, DESIGN section 9)"]
 RULE = ("inputs = (species shape, object shape, leaf assignment incl. species without objects, cost vector in the coherent region with finite or infinite transfer cost); "
         "exhaustive over small shapes/assignments x a cost grid, random larger; non-trivial = some optimal solution contains a duplication or a transfer and the species tree has >= 2 leaves")
@@ -197,6 +198,16 @@ def thl_batch(ctx, name, cases, describe):
         describe=describe)
 
 
+def pre_build(ctx):
+    from translator import table_gen
+    from translator import thl_gen
+    from .. import core
+    changed = False
+    changed = table_gen.regenerate(core.REPO) or changed
+    changed = thl_gen.regenerate(core.REPO) or changed
+    ctx.notes.append("generated solver/table files " + ("regenerated (content changed)" if changed else "regenerated: unchanged"))
+
+
 def batches(ctx):
     quick = ctx.quick()
     cases = gen_cases(ctx, 3, 3, 500 if quick else 5000, 5, 6) if quick else gen_cases(ctx, 4, 3, 5000, 5, 6)
@@ -213,7 +224,7 @@ OPEN_GOALS: list = []
 TECHNIQUE = ("Coq proof: refinement of the faithful table model (aggregator entries, combine, proxy writes) to a clean DP recurrence, "
              "one-node lemma optimiser charge = evaluator charge inside the coherent region, lower bound + attainment + decode soundness/completeness by induction on the object tree; "
              "exhaustive enumerator = valid reconciliations by induction; models tied to the code by exhaustive small inputs x cost grid + random inputs")
-LEVEL_TEXT = ("Machine-checked for all binary trees, leaf assignments and cost vectors with 0<=floss, spe<=dup+2*floss, transfer cost finite or +inf: "
+LEVEL_TEXT = ("The solver itself is tied to the model by translation: _compute_thl_try_speciation, _compute_thl_try_duplication_transfer, _compute_thl_table, _decode_thl_table, reconcile_thl and reconcile_lca (and Table / EntryProxy / Entry underneath) are regenerated from the source on every run and proved equal to the model: every table cell has the model's value for every policy and the model's tags as a set under ALL, the decoded ALL result is the model's up to permutation, reconcile_lca = lca_rec (C01_gen_*). Machine-checked for all binary trees, leaf assignments and cost vectors with 0<=floss, spe<=dup+2*floss, transfer cost finite or +inf: "
               "reconcile_thl(ALL) returns exactly the valid minimum-cost reconciliations (each once), reconcile_thl(ANY) exactly one of them (for any enumeration order of the root species: C01_thl_any_order; exhaustive: any order of the candidates), the result is never empty; "
               "validity holds for any unit costs; generate_all yields every valid reconciliation exactly once and reconcile_exhaustive exactly the optimal ones (any costs). "
               "The models are compared with reconcile_thl (ALL set, ANY membership), every value of _compute_thl_table, reconcile_exhaustive and generate_all on all inputs up to 3/3 leaves "
